@@ -227,8 +227,8 @@ def c06_jobs(tier):
             if tier == "quick" and qual == 0:
                 # three features: nested-then-overlapping layouts need a third interval
                 jobs.append({"pkgdir": P, "func": "VerifC06_Stitch", "params": {"n": n, "k": 3, "qual": 0}})
-            # Compose with 3 features, or 4 letters with qualities, does not finish within 3000 s (measured)
-            if (tier == "thorough" and k == 2 and (n <= 3 or qual == 0)) or (tier == "quick" and qual == 0):
+            # Compose with 3 features, or with 4 letters, does not finish within 3000 s (measured)
+            if (tier == "thorough" and k == 2 and n <= 3) or (tier == "quick" and qual == 0):
                 jobs.append({"pkgdir": P, "func": "VerifC06_Compose", "params": {"n": n, "k": k, "qual": qual}})
     return jobs
 
